@@ -339,3 +339,36 @@ func VerifC19CrossSet() {
 	verifAssert(len(xb) == 2 && len(yb) == 2, "a crosswise Set changed a length")
 	verifAssert((xb[0] == 1 || xb[0] == 3) && (yb[0] == 1 || yb[0] == 3), "a crosswise Set produced a byte neither blob held")
 }
+
+// VerifC19AliasAfterTruncate: a view keeps aliasing the original after the original (or the view) has been
+// truncated, however deep the cut (b = b[:k] never re-allocates): a byte written through one side within
+// both lengths is seen through the other.
+func VerifC19AliasAfterTruncate() {
+	init := verifBytes("b", 16)
+	b := NewBytes(init)
+	model := append([]byte{}, init...)
+	v, err := b.View(0, 8)
+	verifAssert(err == nil, "View failed")
+	k := verifInt64("k")
+	verifAssume(k >= 1)
+	verifAssume(k <= 16)
+	verifAssert(Truncate(b, k) == nil, "Truncate failed")
+	model = model[:k]
+	// write through the view at a position both still cover
+	pos := verifInt64("pos")
+	verifAssume(pos >= 0)
+	verifAssume(pos < k)
+	verifAssume(pos < 8)
+	x := verifByte("x")
+	n, err := Set(v, NewBytes([]byte{x}), pos)
+	verifAssert(err == nil && n == 1, "Set through the view failed")
+	model[pos] = x
+	verifReach("written")
+	c19Same(b, model, "write through a view after the original was truncated; original")
+	// and the other way round
+	y := verifByte("y")
+	n, err = Set(b, NewBytes([]byte{y}), pos)
+	verifAssert(err == nil && n == 1, "Set on the original failed")
+	vb := v.Bytes()
+	verifAssert(vb[pos] == y, "write into the truncated original is not seen through the view")
+}
